@@ -301,7 +301,46 @@ def rule_table_choice(chk, fb, prefix="C12"):
                    detail="the loaded table is copied when %s%s(sheet is %s); required: exactly when some sheet is raw" % ("" if clone_on else "NOT ", quant, pred))
 
 
+def rule_clone_complete(chk, fb, rid):
+    """A clone of the workbook is the same workbook: raw (not yet deserialized) sheets of the clone keep indexes into the
+    string table they were loaded with, so the clone has to carry that table, like every other field."""
+    r = chk.rule(
+        rid,
+        "a clone carries everything: Clone for the workbook type (and any hand-written Clone of a model struct) produces each field of the result from the same field of the original - in particular the shared string table that raw sheets index into",
+        floor=10,
+    )
+    WB = "structs::spreadsheet::Spreadsheet"
+    n_hand = 0
+    for d, b in sorted(fb.mir.items()):
+        if not (d.endswith("::clone") and b.get("trait", "").endswith("clone::Clone")):
+            continue
+        adt = b.get("self_ty")
+        if adt not in fb.adts or fb.adts[adt]["kind"] != "struct":
+            continue
+        if b.get("derived") and adt != WB:
+            continue
+        n_hand += 0 if b.get("derived") else 1
+        chk.touch(d)
+        read = set()
+        bodies = [b] + [fb.mir[c] for c in fb.mir if c.startswith(d + "::{closure")]
+        for bb in bodies:
+            for bl in bb["blocks"]:
+                for st in bl["s"]:
+                    if st["k"] != "assign":
+                        continue
+                    places = [st["rv"].get("place")] if st["rv"]["k"] in ("ref", "rawptr") else [o.get("p") for o in __import__("facts").rv_operands(st["rv"])]
+                    for pl in places:
+                        if pl:
+                            read |= {e["f"] for e in pl.get("pr", []) if isinstance(e, dict) and e.get("of") == adt}
+        for f in fb.adts[adt]["variants"][0]["fields"]:
+            ok = f["name"] in read
+            chk.ob(r, "%s.%s" % (adt.split("::")[-1], f["name"]), ok, where=fb.loc(d),
+                   detail="%s Clone %s field `%s` of the original" % ("derived" if b.get("derived") else "hand-written", "reads" if ok else "never reads (the clone gets a fresh value for)", f["name"]))
+    chk.note("%s: %d hand-written Clone impls of structs inspected besides the workbook's" % (rid, n_hand))
+
+
 def run(chk, fb, tier):
+    rule_clone_complete(chk, fb, "C12.f")
     rule_no_effect(chk, fb, "C12")
     rule_initial(chk, fb)
     rule_table_choice(chk, fb, "C12")
